@@ -1189,3 +1189,99 @@ Module BlockTrees.
   Example C04_block_engine_agrees_with_K1_model : eng_agrees xav = true /\ eng_agrees xav2 = true.
   Proof. split; vm_compute; reflexivity. Qed.
 End BlockTrees.
+
+(* ------------------------------------------------------------------------------------------------------------ *)
+(** * Whole trees with the REAL absolute-item routine and the root glue (wave 5)
+
+   `abs_child_block` (Model/BlockAbs.v) is block.rs `perform_absolute_layout_on_absolute_children` for one item, built from the
+   TRANSLATED kernel Gen/AbsPosGen.v (block_abs_area, block_resolve, block_known, block_place -- the terms C04_abs_block /
+   C04_abs_styles are about) plus the hand glue of the one query's inputs and of the stored layout.  AbsChildRel is PROVED for it
+   (C04_block_absolute_routine_homogeneous), so the `_parametric` theorems above apply without premise on the algorithms.
+   `block_layout_pass` / `block_layout_passes` (Model/BlockRoot.v) add compute_root_layout: the root's known dimensions
+   (Model/Root.v root_known_dimensions), the one memoised query, the root's own layout (root_assemble).  This instance --
+   `bl_memo block_pre abs_child_block` under compute_root_layout over F32 -- is what the whole-tree correspondence
+   `vh blocktree cases` vs Model/BlockEngineRun.v compares with TaffyTree::compute_layout_with_measure bit for bit. *)
+From TV Require Model.BlockAbs Model.BlockRoot Model.BlockAbsExample Proofs.BlockAbsRel Proofs.BlockRootRel.
+Module BlockTreesReal.
+  Import TV.Gen.BlockGen TV.Model.Block TV.Model.ScaleBlock TV.Proofs.ScaleKit TV.Proofs.ScaleBlock.
+  Import TV.Model.Engine TV.Model.EngineRel TV.Proofs.EngineRelProofs.
+  Import TV.Model.BlockAlg TV.Model.BlockEngine TV.Model.BlockEngineRel TV.Model.BlockEngineExample.
+  Import TV.Model.BlockAbs TV.Model.BlockRoot TV.Model.BlockAbsExample.
+  Import TV.Proofs.BlockAlgRel TV.Proofs.EngineHomog TV.Proofs.EngineExamples TV.Proofs.BlockAbsRel TV.Proofs.BlockRootRel.
+  Import ListNotations.
+
+  (* the premise of the parametric theorems holds for the real routine *)
+  Theorem C04_block_absolute_routine_homogeneous : forall k, 0 < k ->
+    AbsChildRel k (bstyle_rel k) (abs_child_block (T := XQ)).
+  Proof. exact abs_child_block_homog. Qed.
+  Print Assumptions C04_block_absolute_routine_homogeneous.
+
+  Theorem C04_block_engine_real_homogeneous : forall k, 0 < k ->
+    Homogeneous (BNode XQ) (BIn XQ) (ChildOut XQ) (BLayout XQ) (bnode_rel k) (bin_rel k) (bout_rel k) (blay_rel k)
+                (bl_algo block_pre abs_child_block).
+  Proof.
+    intros k Hk. apply (bl_algo_homog k Hk).
+    - apply (block_pre_rel k Hk (bstyle_rel k) (wrel_of_rel k Hk)).
+    - apply (abs_child_block_homog k Hk).
+  Qed.
+  Print Assumptions C04_block_engine_real_homogeneous.
+
+  (* the general invariant: any related trees (caches, stored layouts), related inputs, same fuel *)
+  Theorem C04_block_engine_real_instance : forall k, 0 < k ->
+    forall f t t' i i',
+      trel (BNode XQ) (BIn XQ) (ChildOut XQ) (BLayout XQ) (bnode_rel k) (bin_rel k) (bout_rel k) (blay_rel k) t t' -> bin_rel k i i' ->
+      oprel (res_rel (BNode XQ) (BIn XQ) (ChildOut XQ) (BLayout XQ) (bnode_rel k) (bin_rel k) (bout_rel k) (blay_rel k))
+            (bl_memo block_pre abs_child_block f t i) (bl_memo block_pre abs_child_block f t' i').
+  Proof.
+    intros k Hk. apply (block_engine_homog k Hk).
+    - apply (block_pre_rel k Hk (bstyle_rel k) (wrel_of_rel k Hk)).
+    - apply (abs_child_block_homog k Hk).
+  Qed.
+  Print Assumptions C04_block_engine_real_instance.
+
+  (* a whole layout pass on a fresh tree, compute_root_layout included: scaled tree (every style length, every measure
+     function) and scaled available space -- both passes fail (fuel) or both succeed, and EVERY node's stored unrounded layout,
+     the root's too, is the original one with every length multiplied by k *)
+  Theorem C04_block_layout_pass : forall k, 0 < k ->
+    forall f (t t' : sk (BNode XQ)) av av',
+      skrel (BNode XQ) (bnode_rel k) t t' -> bsz_rel (bav_rel k) av av' ->
+      oprel (Forall2 (blay_rel k)) (block_layout_pass block_pre abs_child_block f t av) (block_layout_pass block_pre abs_child_block f t' av').
+  Proof.
+    intros k Hk. apply (block_layout_pass_homog k Hk).
+    - apply (block_pre_rel k Hk (bstyle_rel k) (wrel_of_rel k Hk)).
+    - apply (abs_child_block_homog k Hk).
+  Qed.
+  Print Assumptions C04_block_layout_pass.
+
+  (* any sequence of layout passes on the same tree (caches and stored layouts carried over), starting from ANY related trees *)
+  Theorem C04_block_layout_passes : forall k, 0 < k ->
+    forall f avs avs', Forall2 (bsz_rel (bav_rel k)) avs avs' -> forall t t',
+      trel (BNode XQ) (BIn XQ) (ChildOut XQ) (BLayout XQ) (bnode_rel k) (bin_rel k) (bout_rel k) (blay_rel k) t t' ->
+      oprel (Forall2 (Forall2 (blay_rel k))) (block_passes block_pre abs_child_block f t avs) (block_passes block_pre abs_child_block f t' avs').
+  Proof.
+    intros k Hk. apply (block_passes_homog k Hk).
+    - apply (block_pre_rel k Hk (bstyle_rel k) (wrel_of_rel k Hk)).
+    - apply (abs_child_block_homog k Hk).
+  Qed.
+  Print Assumptions C04_block_layout_passes.
+
+  (* non-vacuity (Model/BlockAbsExample.v): a scroll container (8 px scrollbar gutter) with an in-flow leaf, an absolute leaf
+     sized by its left / right insets with a percentage top inset, an absolute leaf at the bottom right corner with an auto
+     margin and a max-height, an absolute block CONTAINER at its static position with a percentage left inset, and a
+     percentage-width leaf; k = 5/2; one pass and two passes in a row (definite, then max-content x min-content) *)
+  Example C04_block_layout_pass_example :
+    skrel (BNode XQ) (bnode_rel (5 # 2)) exr_tree (exr_tree_scaled (5 # 2)) /\
+    bsz_rel (bav_rel (5 # 2)) exr_avail (bavs_scale (5 # 2) exr_avail) /\
+    exr_boxes exr_tree exr_avail
+      [(Fin 0, Fin 0, Fin 212, Fin 52); (Fin 6, Fin 10, Fin 192, Fin 24); (Fin 11, Fin (7 # 2), Fin 172, Fin 34);
+       (Fin 163, Fin 35, Fin 40, Fin 16); (Fin (103 # 2), Fin 41, Fin 56, Fin 28); (Fin 3, Fin 3, Fin 52, Fin 22);
+       (Fin 6, Fin 34, Fin 96, Fin 12)] = true /\
+    exr_scaled_ok (5 # 2) exr_tree (exr_tree_scaled (5 # 2)) exr_avail = true /\
+    exr_scaled_ok (5 # 2) exr_tree (exr_tree_scaled (5 # 2)) exr_avail_max = true /\
+    exr_two_passes_scaled_ok (5 # 2) exr_tree (exr_tree_scaled (5 # 2)) exr_avail exr_avail_max = true.
+  Proof.
+    split; [apply ex_scaled_rel; reflexivity|]. split; [apply bsz_rel_scale; apply bav_rel_scale|].
+    repeat split; vm_compute; reflexivity.
+  Qed.
+  Print Assumptions C04_block_layout_pass_example.
+End BlockTreesReal.
